@@ -58,3 +58,15 @@ claim('C19', 'other',
       'time; segment counts, curve-spec kinds and node options are explored completely up to the stated bound.',
       _TB + '; exp/sin/cos/sqrt/cbrt/pow are uninterpreted (Ackermannised) with the listed axioms.',
       'symbolic execution of the real Env methods + SMT validity (QF_NRA, nlsat retry)', 'DESIGN.md 3/C19')
+
+claim('C01', 'translation_validation',
+      'Every program of the bounded space (all SSA expression DAGs with <=2 ring-operator nodes over audio/control '
+      'units and two constants in quick; <=2 nodes over 8 leaf kinds and <=3 nodes over 3 leaves in thorough; plus '
+      'madd, 3/4-term sums, shared rewritten sums, dead pure operators, two outputs, and every unary/binary server '
+      'operator) is built by the real SynthDef with SYMBOLIC constants; the emitted bytes are decoded by an '
+      'independent SCgf-2 reader into z3 terms and z3 proves, per path, compiled output == source expression for all '
+      'leaf values and all constants of the path class, stateful units exactly once, opcode == server table, '
+      'arithmetic rates == max input rate.',
+      _TB + '; the independent decoder/opcode tables in vf/scgf.py; non-ring operators are uninterpreted.',
+      'symbolic execution of the real builder/optimiser + SMT equivalence of source and compiled terms (QF_NRA)',
+      'DESIGN.md 3/C01')
